@@ -61,6 +61,21 @@ Theorem ble_reassembly : forall ps last,
     = finish (length ps) (tlv_decode (concat ps ++ last)).
 Proof. intros ps last H. unfold tlv_reassemble. rewrite reassemble_split; [reflexivity|lia..]. Qed.
 
+(* nothing sent beside the final fragment item is lost (the loop repaired by /repo acb2c25): the non-fragment
+   items of the payload come back in front of the reassembled items, so an Error or State item sent next to a
+   FragmentLast item reaches the caller *)
+Theorem ble_reassembly_keeps_siblings : forall data items last,
+    tlv_decode data = Ok items -> lookup 13 items = Some last ->
+    tlv_reassemble [data] = finish_s 0 (nonfrag items) (tlv_decode last).
+Proof.
+  intros data items last Hd Hl. unfold tlv_reassemble.
+  rewrite (reassemble_keeps_siblings 49 [] [] 0 data items last Hd Hl). reflexivity.
+Qed.
+
+Example c15_siblings_nonvacuous :
+  tlv_reassemble [[6; 1; 4; 7; 1; 2; 13; 0]%N] = RDone 0 [(6, [4]); (7, [2])]%N.
+Proof. vm_compute. reflexivity. Qed.
+
 (* non-vacuity: a 600-byte value between two other items meets the hypotheses *)
 Example c15_nonvacuous :
   let d := [(6%N, [1%N]); (3%N, repeat 7%N 600); (255%N, []); (3%N, [])] in
@@ -76,3 +91,4 @@ Print Assumptions tlv_decode_char.
 Print Assumptions tlv_frags_exact.
 Print Assumptions tlv_expected_prefix.
 Print Assumptions ble_reassembly.
+Print Assumptions ble_reassembly_keeps_siblings.
